@@ -887,7 +887,13 @@ pub fn family_timedep() -> Vec<PProblem> {
             second.durations = second.durations.iter().map(|d| if *d == 0 { 0 } else { d + 3 }).collect();
             second.distances = second.distances.iter().map(|d| d * 2 + if *d == 0 { 0 } else { 7 }).collect();
             p.matrices = vec![first, second];
-            out.push(p.fit_matrices());
+            let p = p.fit_matrices();
+            // the same problem with the matrices listed in the reverse order: the order in the document means nothing
+            let mut reversed = p.clone();
+            reversed.name = format!("{}/reversed", reversed.name);
+            reversed.matrices.reverse();
+            out.push(p);
+            out.push(reversed);
         }
     }
     out
